@@ -168,7 +168,7 @@ Proof. exact (ucart_symmetric u11 u22 u33 u23 u13 u12 a b c al be ga). Qed.
 Print Assumptions C12_ucart_symmetric.
 
 Theorem C12_ueq_trace u11 u22 u33 u23 u13 u12 a b c al be ga :
-  (~ 0 < u11 \/ 0 + u33 + u23 + u13 + u12 <> 0) ->
+  (~ 0 < u11 \/ u33 <> 0 \/ u23 <> 0 \/ u13 <> 0 \/ u12 <> 0) ->
   k_ueq ROps u11 u22 u33 u23 u13 u12 a b c al be ga =
   (k_ucart_0_0 ROps u11 u22 u33 u23 u13 u12 a b c al be ga + k_ucart_1_1 ROps u11 u22 u33 u23 u13 u12 a b c al be ga +
    k_ucart_2_2 ROps u11 u22 u33 u23 u13 u12 a b c al be ga) / 3.
@@ -187,3 +187,11 @@ Theorem C12_pd_congruence u11 u22 u33 u23 u13 u12 a b c al be ga : valid_cell a 
           (k_ucart_0_2 ROps u11 u22 u33 u23 u13 u12 a b c al be ga) (k_ucart_0_1 ROps u11 u22 u33 u23 u13 u12 a b c al be ga).
 Proof. exact (pd_congruence u11 u22 u33 u23 u13 u12 a b c al be ga). Qed.
 Print Assumptions C12_pd_congruence.
+
+Theorem C12_valid_cell_ortho : valid_cell 10 11 12 90 90 90.
+Proof. exact (valid_cell_ortho ). Qed.
+Print Assumptions C12_valid_cell_ortho.
+
+Theorem C12_valid_cell_hex : valid_cell 10 10 15 90 90 120.
+Proof. exact (valid_cell_hex ). Qed.
+Print Assumptions C12_valid_cell_hex.
